@@ -203,7 +203,9 @@ ld check_reconstruction(const ref_t *G, const lud_t *d, const int_t *perm_r, con
             ld e = rabs(m - col[i]);
             ld w = Wc[i];
             if (w > maxW) maxW = w;
-            ld bound = gm * w + LD_EPS * (n + 2) * (w + rabs(m));
+            /* + absolute term for products/quotients that underflowed in the working precision: n eta for the sum,
+               eta*|u_jj| for the division that produced l_ij (x8 covers complex arithmetic) */
+            ld bound = gm * w + LD_EPS * (n + 2) * (w + rabs(m)) + 8 * (ld)(n + 1) * HX_UFL * (1 + rabs(d->U[(size_t)j * n + j]));
             ld ratio;
             if (e == 0) ratio = 0;
             else if (bound == 0) ratio = 1e300L;
